@@ -160,11 +160,6 @@ def pairOracles : List Step → List (Out StepOut) → List (String × Bool)
     ("C06.sts_idempotent", idempotent a b oa ob) :: pairOracles (b :: ss) (.val ob :: os)
   | _, _ => []
 
-/-- the implementation's outcomes up to the first panic -/
-def valsOf : List (Out StepOut) → List StepOut
-  | .val o :: os => o :: valsOf os
-  | _ => []
-
 /-- which branch each step of the implementation's walk took (distribution statistics) -/
 def stepTags : Option Wl → List Step → List (Out StepOut) → List String
   | d, s :: ss, .val o :: os =>
